@@ -753,7 +753,8 @@ fn check_render(case: &Json, stats: &mut Stats) -> Verdict {
     let values = [
         "[[[[1, 2], [3]], [[4]]], [[[5, 6]]]]",
         "((1, (2, (3, (4, \"s\")))), [[[2.5]]])",
-        "struct{a := struct{b := struct{c := [[1, 2], [3]]}}, d := (1, [2, [3]])}",
+        // (one field per struct: the order in which several fields are printed differs from one instance to the next)
+        "struct{a := struct{b := struct{c := [[1, 2], ([3], 4)]}}}",
         "[mut [mut [1, 2]], mut [mut [3]]]",
         "[[(1, [2, (3, [4])])]]",
     ];
